@@ -221,7 +221,8 @@ class Check:
             return False
         ok = True
         for n, b in zip(names, blocks):
-            axioms = [] if b.startswith("Closed") else re.findall(r"(?m)^([A-Za-z_][\w.']*)\s*:", b)
+            axioms = [] if b.startswith("Closed") else [
+                a for a in re.findall(r"(?m)^([A-Za-z_][\w.']*)\s*:", b) if a != "Axioms"]
             notok = [a for a in axioms if a not in allowed_axioms]
             if notok:
                 ok = False
